@@ -34,6 +34,13 @@ class C02(PropertyCheck):
                 cs = Case(pyarchive.render_case(e, 0, ops), "shuffled-histories")
                 cs.meta = {"group": i}
                 cases.append(cs)
+        # numeric coincidences between the two offset spaces of the file (barandom.coincidence_contents): the canonical image must
+        # survive parse -> re-serialize also when a label's name offset equals the value stored in a string cell
+        for j, c in enumerate(barandom.coincidence_contents()):
+            ops = barandom.build_ops(rng, c, shuffle=True, noise=False) + [("lvl", ["3"])]
+            cs = Case(pyarchive.render_case(c.e, 0, ops), "offset-coincidence")
+            cs.meta = {"group": n + j}
+            cases.append(cs)
         return cases
 
     def nontrivial(self, case, impl_out):
